@@ -94,6 +94,50 @@ def _length_compared(f, b, c):
     return False
 
 
+def _fits_nonstrict(prog, f, b, c, buf):
+    """the needed length n of the formatting call c (size argument S) is compared with S, and the buffer reaches a stream sink on an edge on
+    which only n <= S is known (the text fits iff n < S: the count excludes the NUL).  Returns (loc, condition text) or None."""
+    from ..cond import atoms, SWAP
+    if len(c[3]) < 2:
+        return None
+    size_txt = show(strip(c[3][1]))
+    names = set()
+    for e in b["e"]:
+        if e[0] == "A" and e[1][1] == "=" and is_var(e[1][2], kind="l") and any(nd is c or (nd[0] == "c" and nd[4] == c[4]) for nd in walk(e[1][3])):
+            names.add(strip(e[1][2])[2])
+        if e[0] == "D":
+            for n2, init in e[1]:
+                if init is not None and any(nd[0] == "c" and nd[4] == c[4] for nd in walk(init)):
+                    names.add(n2)
+    if not names:
+        return None
+    from ..core import dominators
+    dom = dominators(prog, f)[0]
+    sinks = set()
+    for b2, i2, c2 in f.calls():
+        if c2 is c:
+            continue
+        if any(is_var(strip(a), kind="l", name=buf) for a in c2[3]) and callee(c2) not in FORMATTERS:
+            sinks.add(b2["id"])
+    for bid in f.live:
+        cnd = f.blocks[bid].get("c")
+        ss = prog.live_succs(f, f.blocks[bid])
+        if cnd is None or len(ss) != 2:
+            continue
+        for idx, s_ in enumerate(ss):
+            if s_ is None:
+                continue
+            for l, op, r in atoms(cnd, idx == 0):
+                for a, b_, o in ((l, r, op), (r, l, SWAP[op])):
+                    a0 = strip(a)
+                    while isinstance(a0, list) and a0 and a0[0] == "k":
+                        a0 = strip(a0[2])
+                    if is_var(a0, kind="l") and a0[2] in names and show(strip(b_)) == size_txt and o == "<=":
+                        if any(s_ == sb or s_ in dom.get(sb, ()) for sb in sinks):
+                            return (f.blocks[bid].get("tloc", f.loc), show(cnd)[:60])
+    return None
+
+
 def run(prog, rule="R-TRUNC"):
     res = RuleResult(rule, "a snprintf / vsnprintf whose buffer is handed to an output stream by the same function has its return value (the "
                            "needed length) examined")
@@ -148,6 +192,12 @@ def run(prog, rule="R-TRUNC"):
                                                 "%s formats into %s, which this function then writes to an output stream; the returned length is looked at but never "
                                                 "compared with the size of the buffer (only with zero): a text that did not fit is written cut, without any error" % (
                                                     show(c)[:90], buf)))
+            elif _result_used(f, b, i, c) and _fits_nonstrict(prog, f, b, c, buf):
+                loc2, txt = _fits_nonstrict(prog, f, b, c, buf)
+                res.violations.append(Violation(rule, "%s|%s into %s: a text of exactly the buffer's size counts as fitting" % (f.name.replace("mpq_", ""), callee(c), buf), f.name,
+                                                short_loc(loc2), "%s: the buffer %s is written to the stream on an edge where the needed length may equal the size given to %s; "
+                                                "the length excludes the terminating NUL, so that text has lost its last character (the newline of a record)" % (
+                                                    txt, buf, callee(c))))
             elif _result_used(f, b, i, c):
                 res.sample({"site": "%s %s: %s" % (short_loc(c[4]), f.name, show(c)[:60]), "verdict": "needed length examined"}, limit=6)
             else:
